@@ -191,7 +191,26 @@ fn type_last_ident(t: &Type) -> Option<String> {
 
 fn find_fn(file: &File, path: &str) -> Option<FoundFn> {
     use syn::spanned::Spanned;
-    let parts: Vec<&str> = path.split("::").collect();
+    let path_owned = {
+        // protect `::` inside `[..]`
+        let mut out = String::new();
+        let mut depth = 0;
+        let cs: Vec<char> = path.chars().collect();
+        let mut i = 0;
+        while i < cs.len() {
+            if cs[i] == '[' { depth += 1; }
+            if cs[i] == ']' { depth -= 1; }
+            if depth > 0 && cs[i] == ':' && i + 1 < cs.len() && cs[i + 1] == ':' {
+                out.push(';');
+                i += 2;
+                continue;
+            }
+            out.push(cs[i]);
+            i += 1;
+        }
+        out
+    };
+    let parts: Vec<&str> = path_owned.split("::").collect();
     let mut found: Vec<FoundFn> = vec![];
     fn walk(items: &[Item], parts: &[&str], found: &mut Vec<FoundFn>) {
         use syn::spanned::Spanned;
@@ -215,8 +234,19 @@ fn find_fn(file: &File, path: &str) -> Option<FoundFn> {
                         continue;
                     }
                     let tyname = type_last_ident(&im.self_ty);
-                    if tyname.as_deref() != Some(parts[0]) {
-                        continue;
+                    if parts[0].starts_with('[') {
+                        // `[full::path::Type]`: match the impl's self type literally (disambiguates `A` from `dep::A`)
+                        let want = parts[0].trim_start_matches('[').trim_end_matches(']').replace(';', "::");
+                        let have = im.self_ty.to_token_stream().to_string().replace(' ', "");
+                        if have != want {
+                            continue;
+                        }
+                    } else {
+                        let have = im.self_ty.to_token_stream().to_string().replace(' ', "");
+                        // a bare name does not match a module-qualified self type
+                        if tyname.as_deref() != Some(parts[0]) || have.contains("::") && !have.starts_with(parts[0]) {
+                            continue;
+                        }
                     }
                     // optional trait qualifier: Type::Trait::method
                     if parts.len() == 3 {
